@@ -1620,6 +1620,10 @@ static void _reset_sm_state_for_reconnect(xmpp_conn_t *conn)
         s->previd = s->id;
         s->id = NULL;
 
+        /* still set if the previous connection attempt ended before the
+         * session was resumed */
+        if (s->bound_jid)
+            strophe_free(conn->ctx, s->bound_jid);
         s->bound_jid = conn->bound_jid;
         conn->bound_jid = NULL;
     } else if (s->id) {
